@@ -774,6 +774,10 @@ func (fx *FnCtx) sendOp(st *State, x *ssa.Send) {
 			_ = r
 		}
 	}
+	if fx.con != nil && fx.con.Blocking {
+		fx.note("NOT CHECKED: the send on " + strings.TrimPrefix(cls, "field ") + " may block (declared `blocking`: rendezvous with a waiting receiver)")
+		return
+	}
 	fx.oblige(st, fx.oname("nonblocking", "send "+strings.TrimPrefix(cls, "field ")), "nonblocking",
 		&Clause{Props: []string{"C09", "C13"}, Label: "nonblocking-send"}, fx.chanHasRoom(st, ch))
 }
